@@ -5,7 +5,7 @@ CONSTANTS
   Kind = "nameaddr"
   Atoms <- AtomsParams2
   Prefix <- PfxABS
-  MaxLen = 8
+  MaxLen = 9
   Cfgs <- CfgsNA8
   Junk = 34
   EmitOn = TRUE
